@@ -22,6 +22,10 @@ TYPING = ("Union", "Optional", "Tuple", "Callable", "Any")
 
 PROGRAMS = [
     ("sqrt", "def x := sqrt 16\nprint(x)", False),
+    ("handle-predeclared-optional", "class MyErr(def message: Str): Exception\n\ndef g() -> Int? raise [MyErr] => 10\n\ndef a: Int? := g() handle\n    err: MyErr =>\n        print(\"recovered\")\n        20\n\nprint(\"done\")\n", False),
+    ("handle-predeclared-optional-annotated", "class MyErr(def message: Str): Exception\n\ndef g() -> Int? raise [MyErr] => 10\n\ndef a: Int? := g() handle\n    err: MyErr =>\n        print(\"recovered\")\n        20\n\nprint(\"done\")\n", True),
+    ("interface-extends-builtin", "type Coded: Exception\n    def code(self) -> Int\n", False),
+    ("interface-extends-interface", "type Base\n    def foo(self) -> Int\n\ntype Derived: Base\n    def bar(self) -> Int\n", False),
     ("sqrt-twice", "def x := sqrt 16\ndef y := sqrt 4\nprint(x)", False),
     ("sqrt-in-function", "def f(a: Int) -> Float => sqrt a\nprint(f(4))", False),
     ("optional-annotation", "def x: Int? := None", True),
@@ -214,10 +218,10 @@ def ob_sqrt_abc(run, mir, rp):
             claims2.append(z3.Implies(conj(p.cond), disj([z3.And(ev["argvals"][1] == ex2.strc("abc"), ev["argvals"][2] == ex2.strc("abstractmethod")) for ev in regs])))
     if not n_dec:
         raise Unsupported("abstractmethod branch not reached")
-    e2.prove_each(run, ob, ex, [], claims, {}, fam_replay(rp, "math", only=["sqrt"]))
+    e2.prove_each(run, ob, ex, [], claims, {}, fam_replay(rp, "math-abc", only=["sqrt", "interface", "abstract"]))
     if ob.status == "discharged":
         ob.status = "pending"
-        e2.prove_each(run, ob, ex2, [], claims2, {}, fam_replay(rp, "abc", only=["abstract"]))
+        e2.prove_each(run, ob, ex2, [], claims2, {}, fam_replay(rp, "abc", only=["abstract", "interface"]))
 
 
 def ob_add_import(run, mir, rp):
@@ -434,6 +438,36 @@ def ob_prepend(run, mir, rp):
     e2.prove_each(run, ob, ex, [], claims, {}, fam_replay(rp, "prepended"))
 
 
+def ob_threaded(run, mir, rp):
+    """Every callee of a converter that may register an import gets the ONE accumulator the output's import block is built from."""
+    import convkern
+    ob = run.ob("imports-threaded", "E2", "every arm of the typed-AST -> Core converters (all node kinds of convert_node, convert_def, convert_class, "
+                "convert_cntrl_flow, convert_call, convert_handle, ...): on every path, every call that takes an import accumulator (Name::to_py, "
+                "recursive conversions, add_import / add_from_import) is handed the arm's own `imp` - never a fresh or different Imports value, "
+                "whose registrations would be lost", ["all converter arms (convkern.specs)"])
+    bad, n_arms, n_calls, skipped = [], 0, 0, []
+    ex_any = None
+    for sp in convkern.specs():
+        try:
+            arm = convkern.Arm(run, mir, sp["fn"], sp["file"], sp["kind"])
+        except Unsupported as e:
+            skipped.append(f"{sp['fn']}:{sp['kind']}: {e}")
+            continue
+        n_arms += 1
+        ex_any = arm.ex
+        n_calls += sum(1 for p in arm.ends for ev in p.events if any(isinstance(a, Ref) and a.cell == arm.imp_ref.cell for a in ev["args"]))
+        for p, ev, i in arm.foreign_imports():
+            bad.append(f"{sp['fn']}:{sp['kind']}: {ev['name']} argument {i}")
+    if skipped:
+        return ob.inconclusive(f"arms not encodable: {skipped[:3]}")
+    if n_arms < 40 or n_calls < 100:
+        return ob.inconclusive(f"only {n_arms} arms / {n_calls} calls with the accumulator seen")
+    run.samples.append({"obligation": ob.id, "arms": n_arms, "calls_with_accumulator": n_calls, "foreign": sorted(set(bad))[:6]})
+    e2.prove(run, ob, ex_any, [], z3.BoolVal(not bad), {}, fam_replay(rp, "imports-threaded"))
+    if bad:
+        ob.detail += f"; foreign accumulators: {sorted(set(bad))[:4]}"
+
+
 def run(run):
     mir = e2.load_mir(run)
     rp = common.Replay()
@@ -442,7 +476,7 @@ def run(run):
                "outside: free-name analysis of whole outputs; NewType / ABC in convert_class (HashMap re-ordering loops)")
     run.trusted += ["rustc nightly MIR dump", "mirsym MIR semantics", "z3", "python3 ast (replay)"]
     run.bounds = {"accumulator_entries": 2}
-    for f in (ob_pairing, ob_sqrt_abc, ob_add_import, ob_add_from_import, ob_class_imports, ob_prepend):
+    for f in (ob_pairing, ob_sqrt_abc, ob_add_import, ob_add_from_import, ob_class_imports, ob_prepend, ob_threaded):
         try:
             f(run, mir, rp)
         except Unsupported as e:
